@@ -462,3 +462,162 @@ def check_C11(ctx):
     ctx.sample({'source': texts[0], 'budgets': budgets})
     ctx.sample({'source': texts[-1], 'budgets': budgets})
     return finish(ctx)
+
+
+# ---------------------------------------------------------------- C02
+C02_THMS = ['Theo.C02_verdict', 'Theo.C02_parse_fuel_ok', 'Theo.C02_scan_terminates', 'Theo.C02_lexer_progress',
+            'Theo.C02_macro_budget', 'Theo.C02_errors_forwarded']
+
+
+def located_ok(files, main, e_file, e_line):
+    """an error location names a supplied file (or the hidden standard file, or '-') with a line inside it"""
+    if e_file == b'-':
+        return e_line == -1
+    if e_file == b'__standards__' and b'__standards__' not in files:
+        return 1 <= e_line <= 3
+    if e_file not in files:
+        return False
+    content = files[e_file].split(b'\0')[0]
+    nlines = content.count(b'\n') + 1
+    return 1 <= e_line <= nlines
+
+
+def check_C02(ctx):
+    build_all(ctx, ['Theo.Props.C02'], C02_THMS)
+    if ctx.harness is None:
+        return finish(ctx)
+    r = ctx.rnd
+    cases = []
+    # corpus: the defect witnesses of DESIGN section 6
+    corpus = [
+        (b'm', {b'm': b'PROGRAM f DO x0 := 1 END\nx1 := RUN f WITH END'}),
+        (b'm', {b'm': b'PROGRAM f IN a DO x0 := a END\nx1 := RUN f WITH x1, END'}),
+        (b'q', {b'm': b'x := 1'}), (b'm', {b'm': b''}), (b'm', {b'm': b'  // only a comment\n\n'}),
+        (b'm', {b'm': b'PROGRAM f IN a, a OUT a DO a := a END\nx1 := RUN f WITH 1, 2 END'}),
+        (b'm', {b'm': b'DEFINE'}), (b'm', {b'm': b'DEFINE x AS'}), (b'm', {b'm': b'DEFINE PRIO 99999999999999999999 x AS y END DEFINE x'}),
+        (b'm', {b'm': b'x0 := 99999999999999999999'}), (b'm', {b'm': b'x0 := x0 - 2147483648'}), (b'm', {b'm': b'x0 := x0 + 2147483647'}),
+        (b'm', {b'm': b'$0 <P> #1 <ID> x := \x00 y'}), (b'm', {b'm': b'\xff\xfe := 1; include'}), (b'm', {b'm': b'RUN'}),
+        (b'm', {b'm': b'x := RUN f WITH'}), (b'm', {b'm': b'PROGRAM'}), (b'm', {b'm': b'PROGRAM f IN'}), (b'm', {b'm': b'PROGRAM f IN a OUT'}),
+        (b'm', {b'm': b'LOOP'}), (b'm', {b'm': b'IF x = 1 THEN GOTO'}), (b'm', {b'm': b'l:'}), (b'm', {b'm': b'; ; ;'}),
+        (b'm', {b'm': b'include "m"'}), (b'__standards__', {}), (b'm', {b'm': b'x := 1', b'__standards__': b'DEFINE'}),
+    ]
+    for m, f in corpus:
+        cases.append((m, f, {'text': {k.decode('latin1'): v.decode('latin1') for k, v in f.items()}, 'corpus': True}))
+    # every single-token deletion / insertion / swap of a few valid sources; truncation at every token
+    for _ in range(ctx.n(6, 40)):
+        g = sources.Gen(r)
+        defs, main = g.program()
+        ts = sources.toks(defs, main)
+        variants = []
+        for i in range(len(ts)):
+            variants.append(ts[:i] + ts[i + 1:])
+            variants.append(ts[:i])
+            if i + 1 < len(ts):
+                variants.append(ts[:i] + [ts[i + 1], ts[i]] + ts[i + 2:])
+            variants.append(ts[:i] + [r.choice(sources.MUT_VOCAB)] + ts[i:])
+        if ctx.quick and len(variants) > 150:
+            variants = r.sample(variants, 150)
+        for v in variants:
+            text = ' '.join(v)
+            cases.append((b'm', {b'm': text.encode('latin1')}, {'text': {'m': text}}))
+    cases += front.program_files(ctx, ctx.n(500, 6000), mutate_frac=0.85, multi_frac=0.3)
+    # macro-heavy garbage
+    for _ in range(ctx.n(300, 3000)):
+        t = ' '.join(r.choice(front.EXTRACT_VOC + sources.MUT_VOCAB) for _ in range(r.randint(0, 16)))
+        cases.append((b'm', {b'm': t.encode('latin1')}, {'text': {'m': t}}))
+
+    def crash(i, x, d):
+        if 'F11' in str(d):
+            return
+        ctx.violation('compile-crash', 'compile() did not return normally (crash / sanitizer report / leak / timeout): ' + x[:400], d)
+    a, b = front.corr_gen(ctx, cases, crash_is_violation=crash)
+    for (m, f, meta), x in zip(cases, a):
+        ctx.cov['evaluations'] += 1
+        if is_crash(x):
+            continue
+        fx = fields(x)
+        errs = lst(fx['errs'], ',')
+        ok = fx['ok'] == '1'
+        if ok and errs:
+            ctx.violation('verdict-both', 'result marked correct but carries errors', meta['text'])
+        if not ok and not errs:
+            ctx.violation('verdict-neither', 'result marked incorrect without any error', meta['text'])
+        for e in errs:
+            t, msg, fl, ln = e.split(':')
+            if len(unhx(msg)) == 0:
+                ctx.violation('empty-message', 'an error has an empty message', meta['text'])
+            if not located_ok(f, m, unhx(fl), int(ln)):
+                ctx.violation('error-location', 'error located at %r:%s, which is not a line of a supplied file' % (unhx(fl), ln), meta['text'])
+        if not ok:
+            ctx.nontrivial(repr(meta['text']))
+            for e in errs[:1]:
+                ctx.dist('errtype_' + e.split(':')[0])
+        else:
+            ctx.dist('accepted')
+    # F8 / F11: resource findings are replayed explicitly against a plain build with the default stack
+    plain, err = vlib.build_harness('plain')
+    if plain:
+        big = b'x:=1;' * ctx.n(200000, 200000)
+        o = vlib.run_batch([plain], ['GEN ' + files_req(b'm', {b'm': big})], per_line_timeout=60, env=dict(os.environ, THEO_DEFAULT_STACK='1'))[0]
+        if is_crash(o):
+            ctx.violation('F8-stack-depth', 'compile() of a 1 MB source (200 000 statements) crashes: recursion depth is linear in the input: ' + o[:200],
+                          {'source': "'x:=1;' * 200000"})
+        o = vlib.run_batch([plain], ['GEN ' + files_req(b'm', {b'm': b'DEFINE ( <A> ) AS ( $0 , $0 ) END DEFINE\nx := ( a )'})],
+                           per_line_timeout=ctx.n(15, 60), env=dict(os.environ))[0]
+        if is_crash(o):
+            ctx.violation('F11-exponential-growth', 'compile() does not return on a slot-duplicating self-reproducing macro', {'source': 'DEFINE ( <A> ) AS ( $0 , $0 ) END DEFINE / x := ( a )'})
+    ctx.cov['rule'] = ('malformed and valid inputs: defect corpus, every single-token deletion/truncation/swap/insertion of generated sources, multi-edit neighbours in '
+                       'random multi-file layouts, macro/template garbage; every request runs under ASan+UBSan+LSan with libstdc++ assertions; non-trivial = input rejected with errors')
+    ctx.sample(cases[1][2]['text'])
+    ctx.sample(cases[-1][2]['text'])
+    ctx.assumptions.append('PARTIAL: "no undefined behaviour, no leak, bounded work" is runtime behaviour the Lean model cannot exhibit; it is observed by sanitizers and time limits on the generated inputs only')
+    return finish(ctx)
+
+
+# ---------------------------------------------------------------- C04
+C04_THMS = ['Theo.C04_parse_sound', 'Theo.C04_parse_complete', 'Theo.C04_parse_iff', 'Theo.C04_parse_fuel_ok', 'Theo.C04_errors_not_lost']
+
+
+def check_C04(ctx, thms=None):
+    from gen import strict
+    build_all(ctx, ['Theo.Props.C04'], thms or C04_THMS)
+    if ctx.harness is None:
+        return finish(ctx)
+    r = ctx.rnd
+    cases, verdicts = [], []
+    while len(cases) < ctx.n(2500, 25000):
+        g = sources.Gen(r, big=r.random() < 0.2)
+        defs, main = g.program()
+        base = sources.toks(defs, main)
+        for _ in range(5):
+            ts = list(base) if r.random() < 0.25 else sources.mutate(base, r, vocab=strict.VOCAB)
+            if not ts:
+                continue
+            v, why, info = strict.verdict(ts)
+            if info.dup:
+                continue          # duplicate labels / parameters: treatment left open by the documentation
+            text = sources.text_of_tokens(sources.respell(ts, r), r)
+            cases.append((b'm', {b'm': text.encode('latin1')}, {'text': {'m': text}}))
+            verdicts.append((v, why))
+    a, b = front.corr_gen(ctx, cases)
+    front.corr_parse(ctx, cases[:ctx.n(800, 5000)])
+    for (m, f, meta), (v, why), x in zip(cases, verdicts, a):
+        ctx.cov['evaluations'] += 1
+        if is_crash(x):
+            ctx.violation('compile-crash', 'compile crashed: ' + x[:300], meta['text'])
+            continue
+        fx = fields(x)
+        got = 'ACC' if fx['ok'] == '1' else 'REJ'
+        if got != v:
+            ctx.violation('language-differs', 'the documented grammar + static rules say %s (%s) but compile says %s' % (v, why, got), meta['text'])
+        if v == 'REJ' and fx['ok'] == '0' and fx['errs'] == '-':
+            ctx.violation('rejected-without-error', 'rejected source without an error', meta['text'])
+        ctx.dist(v)
+        if v == 'REJ' or len(meta['text']['m']) > 40:
+            ctx.nontrivial(meta['text']['m'])
+    ctx.cov['rule'] = ('generated valid sources and their 1-4 token-edit neighbours over the language vocabulary with all keyword spellings, excluding duplicate '
+                       'labels/parameters and user macros; oracle = strict LL(1) recogniser of the documented grammar plus the static rules; '
+                       'non-trivial = rejected by the oracle, or a source longer than 40 characters')
+    ctx.sample(cases[0][2]['text'])
+    ctx.sample(cases[-1][2]['text'])
+    return finish(ctx)
